@@ -43,7 +43,7 @@ func natBytes(v uint64) []byte {
 	case v < 1<<32:
 		return []byte{byte(v >> 24), byte(v >> 16), byte(v >> 8), byte(v)}
 	}
-	panic("harness: big nat")
+	return []byte{byte(v >> 56), byte(v >> 48), byte(v >> 40), byte(v >> 32), byte(v >> 24), byte(v >> 16), byte(v >> 8), byte(v)}
 }
 
 // DataWire hand-encodes a small Data packet (Name, MetaInfo{FreshnessPeriod}?, Content, DigestSha256-less
